@@ -314,7 +314,15 @@ class RVData:
                     "use the initializer directly."
                 )
 
-        rv_data = u.Quantity(tbl[lwr_to_col[best_rv_name]])
+        def _to_quantity(col):
+            # a masked (missing) entry is not an observation: make it NaN, so
+            # that it is dropped like any other non-finite value instead of
+            # entering with the column's fill data
+            if hasattr(col, "mask") and np.any(col.mask):
+                col = col.astype(float).filled(np.nan)
+            return u.Quantity(col)
+
+        rv_data = _to_quantity(tbl[lwr_to_col[best_rv_name]])
 
         # FUTURETODO: allow customizing?
         _valid_err_names = [
@@ -325,7 +333,7 @@ class RVData:
         ]
         for err_name in _valid_err_names:
             if err_name in lwr_cols:
-                err_data = u.Quantity(tbl[lwr_to_col[err_name]])
+                err_data = _to_quantity(tbl[lwr_to_col[err_name]])
                 break
         else:
             raise RuntimeError(
